@@ -1808,7 +1808,7 @@ func c17RebuiltOptionKeepsArguments(ctx *Ctx, r *Report) {
 				if t := info.TypeOf(cl); t == nil || namedOf(t) == nil || namedOf(t).Obj() != optT.Obj() {
 					return true
 				}
-				hasArgs, reusesPath := false, false
+				hasArgs, reusesPath, keepsRest := false, false, false
 				for _, el := range cl.Elts {
 					kv, ok := el.(*ast.KeyValueExpr)
 					if !ok {
@@ -1822,8 +1822,29 @@ func c17RebuiltOptionKeepsArguments(ctx *Ctx, r *Report) {
 						hasArgs = true
 					}
 					if k.Name == "Assignments" {
-						// (types.ExprString elides literals: walk the value)
-						ast.Inspect(kv.Value, func(q ast.Node) bool {
+						// (types.ExprString elides literals: walk the value); a local closure that builds the list is followed
+						value := ast.Node(kv.Value)
+						if c, ok := ast.Unparen(kv.Value).(*ast.CallExpr); ok {
+							if id, ok := c.Fun.(*ast.Ident); ok {
+								ast.Inspect(fd.Body, func(q ast.Node) bool {
+									if as, ok := q.(*ast.AssignStmt); ok && len(as.Lhs) == 1 && len(as.Rhs) == 1 {
+										if l, ok := as.Lhs[0].(*ast.Ident); ok && info.Defs[l] != nil && info.Defs[l] == objOf(info, id) {
+											if fl, ok := as.Rhs[0].(*ast.FuncLit); ok {
+												value = fl.Body
+											}
+										}
+									}
+									return true
+								})
+							}
+						}
+						ast.Inspect(value, func(q ast.Node) bool {
+							// the assignments after the first one: `….Assignments[1:]`
+							if sl, ok := q.(*ast.SliceExpr); ok && sl.Low != nil && sl.High == nil {
+								if ff := fieldOf(info, sl.X); ff != nil && ff.Name() == "Assignments" {
+									keepsRest = true
+								}
+							}
 							if sel, ok := q.(*ast.SelectorExpr); ok && sel.Sel.Name == "Path" {
 								if ix, ok := ast.Unparen(sel.X).(*ast.IndexExpr); ok {
 									if ff := fieldOf(info, ix.X); ff != nil && ff.Name() == "Assignments" {
@@ -1843,6 +1864,8 @@ func c17RebuiltOptionKeepsArguments(ctx *Ctx, r *Report) {
 				cons := fmt.Sprintf("%s option literal #%d", ctx.FuncName(fobj), seen)
 				r.Check(hasArgs, "effects/rebuilt-option-keeps-arguments", cons, cl.Pos(), "the option built around the original path is given arguments",
 					"the new option reuses the path of an assignment of the original option and declares no argument: an index argument held by that path (`flags[key]` after map_to_index) is read without being declared")
+				r.Check(keepsRest, "effects/rebuilt-option-keeps-assignments", cons, cl.Pos(), "the assignments after the first one are carried over",
+					"the new option is built around the first assignment of the original option only: the other assignments (a constant added by add_assignment, the other fields after struct_fields_as_arguments) are lost — `mode = edit` disappears from both options of unfold_boolean, and an argument stays declared without being assigned")
 				return true
 			})
 		}
